@@ -488,7 +488,10 @@ def opinfo_families(ctx: Ctx, rng, limit: int, pool: list[Any]) -> list[tuple[li
                             if d and pool:
                                 c2 = o.clone()
                                 d2 = c2.properties if c2.properties else c2.attributes
-                                k = rng.choice(sorted(d2))
+                                keys = [x for x in sorted(d2) if x != "op_name__"] or sorted(d2)
+                                k = rng.choice(keys)
+                                if k == "op_name__":
+                                    continue
                                 d2[k] = rng.choice(pool)
                                 members.append(c2)
                                 labels.append(f"{name} clone with {k} replaced")
@@ -528,7 +531,7 @@ def family_case(members: list[Any], given: list[Any] | None = None) -> dict[str,
     for i in range(n):
         try:
             hv.append(hash(members[i]))
-        except TypeError:
+        except Exception:  # noqa: BLE001  (unhashable payloads; CSE keys of operations an accessor rejects)
             return None
         for j in range(n):
             try:
